@@ -48,10 +48,17 @@ def check(run, prog, tier):
     run.need({"head", "tail", "count"} <= mutable, "mutable queue fields (found %s)" % sorted(mutable))
     run.extra["protected_fields"] = sorted(mutable)
 
-    for f in sorted(qfuncs, key=lambda x: x.line):
-        if f.name in SINGLE_THREADED or f.name == "get_slot":
+    import inline
+    called_here = {n.get("fn") for g in qfuncs for b, i, n in g.calls()}
+    for f0 in sorted(qfuncs, key=lambda x: x.line):
+        if f0.name in SINGLE_THREADED or f0.name == "get_slot":
             continue
-        run.saw(f)
+        if f0.static and f0.name in called_here:
+            # a file-local helper is checked in the context of each of its callers (it may be entered with the mutex held)
+            run.note("C19-a: %s() is analysed inlined into its callers" % f0.name)
+            continue
+        f = inline.inlined(f0)
+        run.saw(f0)
         accesses = []
         rets = []
         waits = []
@@ -155,7 +162,10 @@ def check(run, prog, tier):
     ep = prog.unit("lib/async/async_runtime_epoll.c") if prog.has_unit("lib/async/async_runtime_epoll.c") else None
     if ep is None:
         run.need(False, "lib/async/async_runtime_epoll.c in the build")
-    efuncs = [f for f in ep.funcs.values() if f.file.endswith("async_runtime_epoll.c")]
+    efuncs_raw = [f for f in ep.funcs.values() if f.file.endswith("async_runtime_epoll.c")]
+    called_ep = {n.get("fn") for g in efuncs_raw for b, i, n in g.calls()}
+    # file-local helpers are looked at inside the API functions that call them
+    efuncs = [inline.inlined(f) for f in efuncs_raw if not (f.static and f.name in called_ep)]
     creates = [(f, n) for f in efuncs for b, i, n in f.calls("eventfd")]
     pipes = [(f, n) for f in efuncs for b, i, n in f.calls() if n.get("fn") in ("pipe", "pipe2")]
     run.need(creates or pipes, "creation of the wake-up channel (eventfd() or pipe())")
@@ -269,6 +279,91 @@ def check(run, prog, tier):
                        ("the read length is bounded by the room in the events array and every record taken is stored" if ok else "; ".join(why)),
                        f.file, n.get("l"), f.name, what="%s takes notification records out of the pipe that it cannot deliver: the completion is accepted (post returned 0) and never reaches the backend" % f.name)
         run.need(nread >= 1, "read() from the notification pipe (found %d)" % nread)
+
+    # a completion that was accepted has been written: async_runtime_post_completion() answers 0 only behind a whole-record write
+    if not creates:
+        byn = {f.name: f for f in efuncs_raw}
+
+        def success_edges(f):
+            """edges on which a write() to the channel is known to have written the whole record"""
+            res_ids = set()
+            for b, i, n in f.nodes():
+                r = None
+                if n.get("k") == "Asg" and n.get("op") == "=":
+                    r, l = strip(n["R"]), strip(n["L"])
+                    if r.get("k") == "Call" and r.get("fn") == "write" and chan in show(r["args"][0]) and l.get("k") == "Ref":
+                        res_ids.add(l.get("id"))
+                if n.get("k") == "Decl":
+                    for v in n.get("vars", ()):
+                        r = strip(v.get("init")) if isinstance(v.get("init"), dict) else {}
+                        if r.get("k") == "Call" and r.get("fn") == "write" and chan in show(r["args"][0]):
+                            res_ids.add(v.get("id"))
+            out = set()
+            for bid in f.reachable():
+                c = f.branch_cond(bid)
+                if c is None:
+                    continue
+                for idx, truth in ((0, True), (1, False)):
+                    op, l, r = atom_of(c, truth)
+                    l0 = strip(l) if l is not None else {}
+                    if op == "==" and r is not None and const_val(r) in wsizes and ((l0.get("k") == "Ref" and l0.get("id") in res_ids) or (l0.get("k") == "Call" and l0.get("fn") == "write")):
+                        out.add((bid, f.blocks[bid].succ[idx]))
+            return out, res_ids
+
+        memo = {}
+
+        def leaky(f, depth=0):
+            """True: f can answer 0 although no whole record was written on that path; False: it cannot; None: not decided"""
+            if f.name in memo:
+                return memo[f.name]
+            memo[f.name] = None
+            succ, res_ids = success_edges(f)
+            writes_here = any(n.get("fn") == "write" and chan in show(n["args"][0]) for b, i, n in f.calls())
+            verdict = False
+            for b, i, e in f.elements():
+                if e.get("k") != "Return" or "e" not in e:
+                    continue
+                v = strip(e["e"])
+                defs = [v]
+                if v.get("k") == "Ref" and v.get("d") == "local":
+                    defs = [strip(n["R"]) for b2, i2, n in f.nodes() if n.get("k") == "Asg" and n.get("op") == "=" and strip(n["L"]).get("id") == v.get("id")]
+                    defs += [strip(x["init"]) for b2, i2, n in f.nodes() if n.get("k") == "Decl" for x in n.get("vars", ()) if x.get("id") == v.get("id") and isinstance(x.get("init"), dict)]
+                for d in defs:
+                    if const_val(d) is not None:
+                        if const_val(d) == 0 and writes_here:
+                            # answering 0: only behind a success edge
+                            if f.reach_avoiding([f.entry], lambda blk, t=b.id: blk.id == t, avoid_edges=succ) is not None:
+                                verdict = True
+                        continue
+                    if d.get("k") == "Cond":
+                        # (n == size) ? 0 : -1
+                        op, l, r = atom_of(d["c"], True)
+                        l0 = strip(l) if l is not None else {}
+                        is_succ = op == "==" and r is not None and const_val(r) in wsizes and l0.get("k") == "Ref" and l0.get("id") in res_ids
+                        if is_succ and const_val(d["a"]) == 0 and const_val(d["b"]) not in (0, None):
+                            continue
+                        if const_val(d["a"]) not in (0, None) and const_val(d["b"]) not in (0, None):
+                            continue
+                        verdict = verdict or None
+                        continue
+                    if d.get("k") == "Call" and d.get("fn") in byn and depth < 3:
+                        lk = leaky(byn[d["fn"]], depth + 1)
+                        if lk:
+                            verdict = True
+                        elif lk is None and verdict is False:
+                            verdict = None
+                        continue
+                    if verdict is False:
+                        verdict = None
+            memo[f.name] = verdict
+            return verdict
+        pc = byn.get("async_runtime_post_completion")
+        run.need(pc, "async_runtime_post_completion")
+        lk = leaky(pc)
+        run.ob("C19-c", "accepted-is-written:async_runtime_post_completion", (lk is False) if lk is not None else None,
+               "async_runtime_post_completion() answers 0 only behind a write() that returned the record size" if lk is False else
+               ("a path answers 0 without the record having been written (directly or through %s): the completion is accepted and never delivered" % ", ".join(sorted(k for k, v in memo.items() if v and k != pc.name)) if lk else "the return value of the post is not in a form this rule reads"),
+               pc.file, pc.line, pc.name, what="async_runtime_post_completion() reports success for a completion record it did not write (full pipe, interrupted write)")
 
     # ---- C19-d a variable a thread root writes is not also written by another thread once that thread exists
     run.rule("C19-d", "a non-atomic variable or field written by a thread root (timer thread, worker thread) is written by other threads only before the thread is created (the store precedes pthread_create in the same function) - two unsynchronised writers can overwrite each other's final value", 1)
